@@ -352,7 +352,12 @@ func runC03(c *mon.Ctx) {
 					// the proto-event's unsigned is caller-supplied raw JSON as well: with a repeated member name in it - or a
 					// byte that is not UTF-8, there or in the content - Build refuses, or builds something that re-parses
 					ps3 := ps
-					switch vr.Intn(5) {
+					contentShape := false
+					switch vr.Intn(7) {
+					case 5, 6:
+						// ... and so is the content: a content that is no object is nothing the untrusted parser takes
+						contentShape = true
+						ps3.Content = []byte(gen.Pick(vr, []string{`null`, `null`, `[]`, `"text"`, `1`, `true`}))
 					case 0:
 						ps3.Unsigned = []byte("{\"transaction_id\":\"\xff\"}")
 					case 1:
@@ -371,6 +376,9 @@ func runC03(c *mon.Ctx) {
 							sig := "roundtrip:untrusted:error:proto-unsigned-repeats-a-member"
 							if !utf8.Valid(ps3.Unsigned) || !utf8.Valid(ps3.Content) {
 								sig = "roundtrip:untrusted:error:proto-not-utf8"
+							}
+							if contentShape {
+								sig = "roundtrip:untrusted:error:proto-content-not-an-object"
 							}
 							c.Failf(sig, "Build(v%s) accepts a proto-event with unsigned %q / content %q, and the event it builds is refused as untrusted input: %v", ver, ps3.Unsigned, ps3.Content, perr)
 						} else if u3.EventID() != ev3.EventID() {
